@@ -899,9 +899,16 @@ retry:
 // unregisters a connected player
 func (p *Proxy) unregisterConnection(player *connectedPlayer) (found bool) {
 	p.muP.Lock()
-	_, found = p.playerIDs[player.ID()]
-	delete(p.playerNames, strings.ToLower(player.Username()))
-	delete(p.playerIDs, player.ID())
+	// Only remove this connection's own registration: the teardown of a rejected
+	// duplicate (same UUID or name) must not unregister the legitimate player.
+	if registered, ok := p.playerIDs[player.ID()]; ok && registered == player {
+		found = true
+		delete(p.playerIDs, player.ID())
+	}
+	lowerName := strings.ToLower(player.Username())
+	if registered, ok := p.playerNames[lowerName]; ok && registered == player {
+		delete(p.playerNames, lowerName)
+	}
 	empty := len(p.playerIDs) == 0
 	p.muP.Unlock()
 	if empty {
